@@ -247,11 +247,16 @@ def obligations(tier):
             continue
         seen.add(a)
         keep.append(a)
-    splits = [dict(acts=a, MAXCH=3 if thorough else 2, _must=('end',)) for a in keep]
-    splits += [dict(acts=a, MAXCH=3 if thorough else 2, overlap=True, _must=('end',)) for a in keep
-               if 7 in a and 0 in a]        # overlapping chunks matter when a write lands between advances
-    # read-only handle + users that ask for 'r+' explicitly (no writes): mode mixing among sharers of one map
-    splits += [dict(acts=a, MAXCH=2, rmode=True, _must=('end',)) for a in scheds if 7 not in a and (1 in a or 4 in a) and 0 in a]
+    splits = [dict(acts=a, MAXCH=2, _must=('end',)) for a in keep]
+    if thorough:
+        # deeper data bound (3 chunks per generator) on the length-3 schedules; sized for ~25 min on 16 cores
+        splits += [dict(acts=a, MAXCH=3, _must=('end',)) for a in wellformed(3) if a[0] <= a[-1] or 7 in a]
+    three = wellformed(3)
+    # overlapping chunks matter when a write lands between advances; mode mixing needs a read-only handle
+    # and users that ask for 'r+' explicitly (no writes) - both on ALL length-3 schedules in both tiers
+    splits += [dict(acts=a, MAXCH=2, overlap=True, _must=('end',)) for a in three if 7 in a and 0 in a]
+    splits += [dict(acts=a, MAXCH=2, rmode=True, _must=('end',)) for a in three
+               if 7 not in a and (1 in a or 4 in a) and 0 in a]
     return [Ob('SCHED', 'h_schedule', splits=splits, timeout=T, replay='replay_schedule', per_path_timeout=60,
                sym='n, c1, c2 (array length, chunk lengths), order (finishing order of the survivors), probe',
                bounds=f'ALL {len(keep)} well-formed schedules (up to renaming g1<->g2) of L={L} actions over {{advance/close g1, '
